@@ -233,7 +233,7 @@ pub fn run(ctx: &Ctx, out: &mut Out) {
             continue;
         }
         let mut rng = ctx.rng(0, i as u64);
-        let mut pg = ProgGen { rng: &mut rng, cfg: ProgCfg::default() };
+        let mut pg = ProgGen { rng: &mut rng, cfg: ProgCfg { growing: false, ..ProgCfg::default() } };
         let prog = pg.program();
         let text = prog.render();
         for k in 0..5 {
